@@ -116,9 +116,10 @@ type linExpr struct {
 }
 
 type boundsCtx struct {
-	c    *Check
-	r    *RuleCtx
-	info *types.Info
+	c     *Check
+	r     *RuleCtx
+	info  *types.Info
+	depth int
 }
 
 // lin normalises an integer expression to term+offset, expanding single-definition locals.
@@ -230,6 +231,23 @@ func (bc *boundsCtx) factsOfAtom(atom ast.Expr, truth bool) []linFact {
 			}
 		}
 	case *ast.CallExpr:
+		// a one-line predicate of the same package on the same receiver name (`func (d *D) hasToken() bool { return
+		// d.cursor >= 0 && d.cursor < len(d.tokens) }`): the facts of its expression
+		if re := singleReturnExpr(bc.c.P, bc.info, x); re != nil && len(x.Args) == 0 {
+			if d := bc.c.P.DeclOf(callee(bc.info, x)); d != nil && d.Decl.Recv != nil && len(d.Decl.Recv.List) == 1 && len(d.Decl.Recv.List[0].Names) == 1 && callRecv(x) != nil &&
+				d.Decl.Recv.List[0].Names[0].Name == exprStr(callRecv(x)) && d.Obj != bc.r.FI.Obj {
+				succ := 0
+				if !truth {
+					succ = 1
+				}
+				for _, af := range atomsOnEdge(re, succ) {
+					if _, isCall := ast.Unparen(af.E).(*ast.CallExpr); isCall {
+						continue // no nesting
+					}
+					out = append(out, bc.factsOfAtom(af.E, af.T)...)
+				}
+			}
+		}
 		if truth && isCall(bc.info, x, "strings.HasPrefix", "strings.HasSuffix") && len(x.Args) == 2 {
 			if s, ok := constString(bc.info, x.Args[1]); ok {
 				out = append(out, linFact{"", "len(" + exprStr(x.Args[0]) + ")", -int64(len(s))})
@@ -548,8 +566,108 @@ func (bc *boundsCtx) regexpGroups(e ast.Expr) (int, bool) {
 	return re.MaxCap(), true
 }
 
-// discharge decides one index / slice expression.
+// discharge decides one index / slice expression: locally, or – for an index expression in an unexported function
+// whose index is a parameter – as a precondition every call site in the package establishes.
 func (bc *boundsCtx) discharge(n ast.Node) (bool, string) {
+	ok, why := bc.dischargeLocal(n, nil)
+	if ok {
+		return true, ""
+	}
+	if ix, isIx := n.(*ast.IndexExpr); isIx && !bc.r.FI.Obj.Exported() && bc.depth < 1 {
+		if ok2 := bc.dischargeAtCallers(ix); ok2 {
+			return true, ""
+		}
+	}
+	return ok, why
+}
+
+// dischargeAtCallers: `X[p±k]` with p a parameter and X mentioning at most the receiver: proved at every call site
+// with the argument substituted for p (receiver names must coincide, so that X reads the same in caller and callee).
+func (bc *boundsCtx) dischargeAtCallers(ix *ast.IndexExpr) bool {
+	fi := bc.r.FI
+	idx := bc.lin(ix.Index, 0)
+	if !idx.ok || idx.term == "" || fi.Decl.Type.Params == nil {
+		return false
+	}
+	pidx, pi := -1, 0
+	for _, f := range fi.Decl.Type.Params.List {
+		for _, nm := range f.Names {
+			if nm.Name == idx.term {
+				if o, ok := bc.info.Defs[nm].(*types.Var); ok && !assignedBetween(bc.info, fi.Decl.Body, o, fi.Decl.Body.Pos(), ix.Pos()) {
+					pidx = pi
+				}
+			}
+			pi++
+		}
+	}
+	if pidx < 0 {
+		return false
+	}
+	recvName := ""
+	if fi.Decl.Recv != nil && len(fi.Decl.Recv.List) == 1 && len(fi.Decl.Recv.List[0].Names) == 1 {
+		recvName = fi.Decl.Recv.List[0].Names[0].Name
+	}
+	// X may mention only the receiver
+	okX := true
+	ast.Inspect(ix.X, func(y ast.Node) bool {
+		if id, ok := y.(*ast.Ident); ok {
+			if v, ok := bc.info.Uses[id].(*types.Var); ok && !v.IsField() && id.Name != recvName {
+				okX = false
+			}
+		}
+		return true
+	})
+	if !okX {
+		return false
+	}
+	lenT := "len(" + exprStr(ix.X) + ")"
+	sites, all := 0, true
+	bc.c.P.AllFuncs([]*packagesPkg{fi.Pkg}, func(caller *FuncInfo) {
+		if strings.HasSuffix(bc.c.P.Fset.Position(caller.Decl.Pos()).Filename, "_test.go") {
+			return
+		}
+		inf := caller.Info()
+		for _, call := range callsIn(caller.Decl.Body) {
+			if callee(inf, call) != fi.Obj {
+				continue
+			}
+			sites++
+			if recvName != "" && (callRecv(call) == nil || exprStr(callRecv(call)) != recvName) || pidx >= len(call.Args) {
+				all = false
+				continue
+			}
+			cr := bc.c.CtxOf(caller)
+			cb := &boundsCtx{c: bc.c, r: cr, info: inf, depth: bc.depth + 1}
+			use, found := cr.F.PtOf(call.Pos())
+			if !found {
+				all = false
+				continue
+			}
+			facts := cb.dominatingFacts(use)
+			if be := enclosingAnd(caller.Decl.Body, call); be != nil {
+				for _, left := range be {
+					for _, af := range atomsOnEdge(left, 0) {
+						facts = append(facts, cb.factsOfAtom(af.E, af.T)...)
+					}
+				}
+			}
+			a := cb.lin(call.Args[pidx], 0)
+			if !a.ok {
+				all = false
+				continue
+			}
+			off := a.off + idx.off
+			lowOK := proves(facts, "", a.term, off) || (a.term == "" && off >= 0)
+			upOK := proves(facts, a.term, lenT, -1-off)
+			if !lowOK || !upOK {
+				all = false
+			}
+		}
+	})
+	return sites > 0 && all
+}
+
+func (bc *boundsCtx) dischargeLocal(n ast.Node, _ []linFact) (bool, string) {
 	r := bc.r
 	use, found := r.F.PtOf(n.Pos())
 	if !found {
@@ -559,7 +677,9 @@ func (bc *boundsCtx) discharge(n ast.Node) (bool, string) {
 	// facts established inside the same condition (short-circuit): `len(a) != 0 && a[len(a)-1] == x`
 	if be := enclosingAnd(r.FI.Decl.Body, n); be != nil {
 		for _, left := range be {
-			facts = append(facts, bc.factsOfAtom(left, true)...)
+			for _, af := range atomsOnEdge(left, 0) {
+				facts = append(facts, bc.factsOfAtom(af.E, af.T)...)
+			}
 		}
 	}
 	// range index variables
